@@ -417,6 +417,16 @@ acl_ip_data::FactoryParse(const char *t)
     if (changed)
         debugs(28, DBG_CRITICAL, "WARNING: aclIpParseIpData: Netmask masks away part of the specified IP in '" << t << "'");
 
+    // A range that ends below its first address denotes nothing, and
+    // Acl::SplayInserter cannot order it: Compare(v, v) is not 0 for such a
+    // value, so Merge() would destroy a stored value that it failed to remove.
+    if (!q->addr2.isAnyAddr() && q->addr2.matchIPAddr(q->addr1) < 0) {
+        debugs(28, DBG_CRITICAL, "ERROR: aclIpParseIpData: range ends below its first address in '" << t << "'");
+        delete q;
+        self_destruct();
+        return nullptr;
+    }
+
     // TODO: Either switch match() to Acl::SplayInserter<acl_ip_data*>::Compare()
     // range logic (that does not have these problems) OR warn that some (or
     // even all) addresses will never match this configured ACL value when
